@@ -88,5 +88,21 @@ C11_Survives ==
           ev'.panic = "", [at |-> Where, panic |-> ev'.panic])
 C11_Step == C11_Valid /\ C11_Starts /\ C11_SameState /\ C11_Behaves /\ C11_Survives
 
-SyncStep == C08_Step /\ C29_Step /\ C11_Step
+\* ======================================================================== C25
+\* reader goroutines serve queries against the node while it executes; the reference twin executes the same requests alone
+Concurrent == hist.cfg.family = "concurrency"
+AbciKinds == {"BeginBlock", "DeliverTx", "CheckTx", "EndBlock", "Commit"}
+C25_Same ==
+   Clause("C25", "SameResponsesAndHashesUnderQueries", HasPair /\ Concurrent, PairDiff = {}, PairDescr)
+C25_NoCrash ==
+   Clause("C25", "ExecutionSurvivesQueries", Concurrent /\ ev'.kind \in AbciKinds \cup {"Fatal"},
+          ev'.panic = "" /\ ev'.kind # "Fatal",
+          [at |-> Where, panic |-> ev'.panic])
+C25_QueriesSurvive ==
+   Clause("C25", "QueriesDoNotPanic", Concurrent /\ ev'.kind \in AbciKinds \cup {"Queries"},
+          "queryPanic" \notin DOMAIN ev',
+          [at |-> Where, panic |-> (IF "queryPanic" \in DOMAIN ev' THEN ev'.queryPanic ELSE "")])
+C25_Step == C25_Same /\ C25_NoCrash /\ C25_QueriesSurvive
+
+SyncStep == C08_Step /\ C29_Step /\ C11_Step /\ C25_Step
 =============================================================================
